@@ -29,6 +29,7 @@ PROPS["C02"] = dict(
         "quic/packet.py::decode_packet_number",
         CRY + "derive_key_iv_hp", CRY + "CryptoContext.__init__", CRY + "CryptoContext.setup", CRY + "CryptoContext.decrypt_packet", CRY + "CryptoContext.encrypt_packet",
         CRY + "next_key_phase", CRY + "apply_key_phase", CRY + "CryptoPair.setup_initial", CRY + "CryptoPair.decrypt_packet", CRY + "CryptoPair._update_key",
+        CONN0 + "receive_datagram@expected_pn",
         "_crypto.c::AEAD_init", "_crypto.c::AEAD_decrypt", "_crypto.c::AEAD_encrypt", "_crypto.c::HeaderProtection_init", "_crypto.c::HeaderProtection_apply", "_crypto.c::HeaderProtection_remove",
     ],
     bounded=["native-xcheck-pn", "ccrypto-boundary"],
@@ -117,9 +118,9 @@ PROPS["C10"] = dict(
 )
 
 PROPS["C12"] = dict(
-    functions=[RS + "add", RS + "shift", RS + "bounds", RS + "__getitem__", RS + "__len__"],
+    functions=[RS + "__init__", RS + "add", RS + "shift", RS + "bounds", RS + "__getitem__", RS + "__len__", CONN0 + "receive_datagram@record", CONN0 + "_on_ack_delivery"],
     bounded=["rangeset-smallscope"],
-    scope="decided for all histories of the acknowledgement range set: after any sequence of add() calls the set contains exactly the packet numbers that were added (view' = view ∪ [start,stop) per call, nothing else changes), kept sorted, disjoint and non-adjacent, which is the structure push_ack_frame encodes",
+    scope="CONNECTION LEVEL: the tail of receive_datagram (block contract on the statement that records a packet, reached only after the AEAD opened the packet and its payload was processed without a connection error) adds exactly that packet number to the set to be acknowledged, arms the acknowledgement deadline of an ack-eliciting packet at now + the acknowledgement delay unless an earlier deadline is pending, and never postpones a pending deadline; an acknowledged ACK frame prunes exactly the numbers up to the largest number that frame carried, a lost one prunes nothing. DATA STRUCTURE: decided for all histories of the acknowledgement range set: after any sequence of add() calls the set contains exactly the packet numbers that were added (view' = view ∪ [start,stop) per call, nothing else changes), kept sorted, disjoint and non-adjacent, which is the structure push_ack_frame encodes",
     lemma="soundness clause of C12 at the data-structure level: ack_queue.add(pn) is the only writer on the receive path, so the ACK range set lists only recorded packet numbers",
     not_decided="that receive_datagram records a packet only after successful authentication, the ACK frame encoder push_ack_frame (C Buffer), ACK timing",
     trusted_base=BASE,
